@@ -712,6 +712,33 @@ class Check:
                         if not ok:
                             s.inconclusive.append((h, 'reachability witness %r not shown reachable (vacuity guard)' % cid))
                             log('  %s: cover %s not shown reachable' % (h, cid))
+            if s.tier == 'thorough' and not os.environ.get('VERIF_NO_SECOND_LOWERING'):
+                # second lowering: the same harnesses from the -Zmir-opt-level=1 dump (a differently shaped MIR of the
+                # same code) must give the same verdicts; a rotating third per seed keeps the cost bounded
+                try:
+                    path1, dt1 = dump_mir(s.feature, 1)
+                    first_info = dict(s.harness_info)
+                    s.text = open(path1).read()
+                    s.fns = mir.parse_mir(s.text)
+                    sub = [h for i, h in enumerate(sorted(hs)) if (i + s.seed) % 3 == 0]
+                    before = (s.stats['obligations'], s.stats['discharged'])
+                    log('[%s] second lowering (mir-opt-level=1): %d harnesses' % (s.prop, len(sub)))
+                    for h in sub:
+                        if h not in s.fns:
+                            s.inconclusive.append((h, 'harness missing from the opt-level-1 dump'))
+                            continue
+                        T.reset()
+                        s.feas_cache = {}
+                        s.check_harness(h, pool)
+                    s.stats['second_lowering_harnesses'] = len(sub)
+                    s.stats['second_lowering_obligations'] = s.stats['obligations'] - before[0]
+                    s.stats['second_lowering_discharged'] = s.stats['discharged'] - before[1]
+                    for h, info in first_info.items():
+                        if h in s.harness_info and s.harness_info[h] is not info:
+                            info['second_lowering'] = {k: s.harness_info[h].get(k) for k in ('paths', 'obligations', 'unsat', 'sat', 'unknown')}
+                        s.harness_info[h] = info
+                except BuildError as e:
+                    s.inconclusive.append(('second-lowering', str(e)[-500:]))
         return s.finish()
 
     # ---------------- verdict + evidence
@@ -749,7 +776,7 @@ class Check:
                 'discharged_trivially_equal_terms': s.stats['trivial'], 'discharged_with_nonlinear_terms_abstracted': s.stats.get('abstract_unsat', 0), 'discharged_with_reduced_hypotheses': s.stats.get('focused_unsat', 0),
                 'stretch_attempted': s.stats['stretch_attempted'], 'stretch_discharged': s.stats['stretch_discharged'],
                 'paths': s.stats['paths'], 'forks': s.stats['forks'], 'forks_pruned_infeasible': s.stats['pruned'], 'mir_statements_executed': s.stats['stmts'],
-                'reachability_witnesses': s.stats['covers'], 'fork_feasibility_queries': s.stats['feas_queries'],
+                'reachability_witnesses': s.stats['covers'], 'second_lowering': {k: v for k, v in s.stats.items() if k.startswith('second_lowering')}, 'fork_feasibility_queries': s.stats['feas_queries'],
                 'harnesses': {h.split('::')[-1]: {k: v for k, v in info.items() if k not in ('order',)} for h, info in s.harness_info.items()},
                 'functions_encoded': sorted(s.functions), 'instantiations': sorted(s.instantiations),
                 'axiom_instances': s.axiom_groups,
